@@ -69,6 +69,9 @@ func Run(src string, o Opts) (out Outcome) {
 	}
 	if err != nil {
 		out.Class = "runtime-error"
+		if err.Error() == budgetText {
+			out.Class = "budget"
+		}
 		out.Err = err
 		out.ErrText = err.Error()
 		return
@@ -76,6 +79,9 @@ func Run(src string, o Opts) (out Outcome) {
 	out.Class = "ok"
 	return
 }
+
+// budgetText is the text of ErrBudget (direct.go, verif builds).
+const budgetText = "verif: step budget exhausted"
 
 // RunCompiled runs an already compiled object, capturing panics.
 func RunCompiled(c *tengo.Compiled) (class string, err error, text string) {
